@@ -444,6 +444,11 @@ def curated():
     A(struct([Member(carr(P("i32"), 3), 2), Member(carr(P("string"), 2), 2), Member(P("u8"))], "SNestC"))   # nested C arrays i32[2][3], string[2][2]
     # wide strings followed by more data (readers that account characters vs bytes differently go wrong on what follows)
     A(struct([Member(P("u16string")), Member(P("u64")), Member(arr(P("u32"), 4))], "SWide")); A(pair(P("u32string"), P("i64"))); A(vec(P("wstring"))); A(tup(P("u16string"), P("string"), P("u16")))
+    # plain C char arrays (not logical buffers): in the middle of a structure and as its last member (a write one past the array leaves the object)
+    A(struct([Member(P("char"), 8), Member(P("u8"))], "SChar8Mid")); A(struct([Member(P("u16")), Member(P("char"), 8)], "SChar8Last"))
+    # non-integral arrays of enums (variable-width elements)
+    A(arr(enum("u16"), 3)); A(arr(enum("i32"), 4)); A(struct([Member(enum("u32"), 3), Member(P("u8"))], "SEnumArr"))
+    A(table([(arr(enum("i32"), 4), 1, True), (P("string"), 2, True), (vec(enum("u16")), 3, True)], "TEnumArr", ("hash", 31)))
     A(struct([Member(P("u8"))], "SOne")); A(struct([Member(P("u8")), Member(P("u8"))], "SExt", external=True))
     A(struct([LBuf(P("u32"), 100, P("u8"))], "LBu32x100_u8"))
     A(struct([LBuf(P("u8"), 300, P("int"))], "LBu8x300_int"))
